@@ -402,6 +402,7 @@ class Explorer:
             if (self.max_execs is not None and self.execs >= self.max_execs) \
                     or getattr(self, "stop", False) \
                     or (getattr(self, "deadline", None) is not None
+                        and self.execs + self.blocked >= 1
                         and time.time() > self.deadline):
                 self.capped = True
                 return
